@@ -900,7 +900,7 @@ static void runCase(const Case &c, SSL_CTX *peerCli, SSL_CTX *peerSrv)
     if (cr.isOk()) sid.store(static_cast<long long>(cr.value()));
   }
 
-  auto deadline = Clock::now() + milliseconds(20000);
+  auto deadline = Clock::now() + milliseconds(30000);
   auto waitFor = [&](auto pred) { while (!pred()) { if (Clock::now() > deadline) return false; sleepUs(200); } return true; };
   bool stall = false;
   // senders start as soon as the id is known (early: inside the connect / handshake window) or after the connect callback
@@ -958,20 +958,21 @@ static void runCase(const Case &c, SSL_CTX *peerCli, SSL_CTX *peerSrv)
 
   // wait until everything has arrived (or the session ended); with the drop-oldest policy bytes may be dropped by design,
   // so there the wait ends when nothing has moved for a while
+  // "nothing moved for a long time" ends the wait as well (a stall is then reported): 4 s is three orders of magnitude above
+  // the time any single step of a case takes
   std::size_t lastRx = 0;
   auto lastMove = Clock::now();
+  bool idleOut = false;
   bool all = waitFor([&]
   {
     if (closedCb.load() > 0 || g_peerDone.load()) return true;
     if (g_peerRx.load() >= expect.size() && g_peerWritesDone.load() && deliveredN.load() >= g_peerWritten.load()) return true;
-    if (c.lossy)
-    {
-      std::size_t rx = g_peerRx.load() + deliveredN.load();
-      if (rx != lastRx) { lastRx = rx; lastMove = Clock::now(); }
-      else if (Clock::now() - lastMove > milliseconds(150)) return true;
-    }
+    std::size_t rx = g_peerRx.load() + deliveredN.load() + g_peerWritten.load();
+    if (rx != lastRx) { lastRx = rx; lastMove = Clock::now(); }
+    else if (Clock::now() - lastMove > milliseconds(c.lossy ? 150 : 4000)) { idleOut = !c.lossy; return true; }
     return false;
   });
+  if (idleOut) all = false;
   if (!all) stall = true;
   // a peer-initiated close: give the engine a moment to notice it before stop() (either order is legal)
   if (g_peerDone.load() && closedCb.load() == 0)
